@@ -150,13 +150,32 @@ pub fn guarded_timeout<T: Send + 'static>(ms: u64, f: impl FnOnce() -> T + Send 
         let r = guarded(f);
         let _ = tx.send(r);
     });
-    match rx.recv_timeout(std::time::Duration::from_millis(ms)) {
-        Ok(r) => r,
-        Err(_) => {
+    // The operations run here take microseconds; the limit only has to tell a loop that never ends from a thread that
+    // was not scheduled for a while on a busy machine (250 ms of wall clock was NOT enough: with the model checker on
+    // every core a correct merge once missed it, which would have been a false alarm).  So: 30 s of wall clock, or --
+    // the runaway loops met so far push onto a Vec for ever -- 2 GiB of growth of the resident set, whichever is first.
+    let limit = std::time::Duration::from_millis(ms.max(30_000));
+    let t0 = std::time::Instant::now();
+    let rss0 = resident_bytes();
+    loop {
+        match rx.recv_timeout(std::time::Duration::from_millis(50)) {
+            Ok(r) => return r,
+            Err(std::sync::mpsc::RecvTimeoutError::Disconnected) => return Err("worker thread vanished".into()),
+            Err(std::sync::mpsc::RecvTimeoutError::Timeout) => {}
+        }
+        let grown = resident_bytes().saturating_sub(rss0);
+        if t0.elapsed() >= limit || grown > (2u64 << 30) {
             HUNG.store(true, std::sync::atomic::Ordering::SeqCst);
-            Err(format!("did not return within {ms} ms"))
+            return Err(format!("did not return ({} ms, resident set grew by {} MiB)", t0.elapsed().as_millis(), grown >> 20));
         }
     }
+}
+
+fn resident_bytes() -> u64 {
+    std::fs::read_to_string("/proc/self/statm")
+        .ok()
+        .and_then(|s| s.split_whitespace().nth(1).and_then(|p| p.parse::<u64>().ok()))
+        .map_or(0, |pages| pages * 4096)
 }
 
 pub fn quiet_panics() {
